@@ -74,6 +74,22 @@ fn programs(seed: u64, thorough: bool) -> Vec<(String, Vec<String>, Option<Progr
         t.push_str(")\n(run all 1)\n(print-function fired 100)\n(print-function f 10)\n(extract (Pick (A0)))\n(extract (Pick (A0)) 4)\n(print-size)\n");
         v.push((format!("fixed diamond-combined-rulesets width={width}"), vec![t], None));
     }
+    // containers rewritten in place by a union: the order in which dirty container ids reach the
+    // parent-row refresh follows the shard walk of the container maps, whose shard count depends on
+    // the CPUs available to the process (children run under different CPU affinities)
+    for n in [2usize, 3, 5, 8, 11, 14, 16] {
+        for (kind, of) in [("Vec", "vec-of"), ("Set", "set-of")] {
+            let mut t = format!("(datatype E (A i64) (B i64))\n(sort CE ({kind} E))\n(constructor P (CE) E)\n");
+            for i in 1..=n {
+                t.push_str(&format!("(B {i})\n"));
+            }
+            for i in 1..=n {
+                t.push_str(&format!("(P ({of} (A {i})))\n"));
+            }
+            t.push_str(&format!("(rule ((= x (A i)) (= y (B i))) ((union x y)))\n(run 1)\n(print-size P)\n(print-function P 100)\n(extract (P ({of} (A 1))))\n(extract (P ({of} (A {n}))) 3)\n"));
+            v.push((format!("fixed containers-rewritten-in-place kind={kind} n={n}"), vec![t], None));
+        }
+    }
     // the repository's own small test programs, as whole files
     let mut files: Vec<std::path::PathBuf> = std::fs::read_dir("/repo/tests")
         .map(|rd| rd.flatten().map(|e| e.path()).filter(|p| p.extension().map(|x| x == "egg").unwrap_or(false)).collect())
@@ -159,17 +175,21 @@ fn main() {
     // child processes with different address-space layouts and environments
     let exe = std::env::current_exe().unwrap();
     let setarch_ok = std::process::Command::new("setarch").args(["-R", "true"]).status().map(|s| s.success()).unwrap_or(false);
-    let configs: Vec<(&str, bool, Vec<(&str, String)>)> = vec![
-        ("child plain", false, vec![]),
-        ("child no-ASLR + padded env", true, vec![("VERIF_PAD", "x".repeat(70000)), ("TZ", "Pacific/Kiritimati".into()), ("LANG", "tr_TR.UTF-8".into()), ("RUST_BACKTRACE", "1".into())]),
-        ("child padded env 2", false, vec![("VERIF_PAD", "y".repeat(1234)), ("VERIF_PAD2", "z".repeat(33333)), ("TZ", "UTC".into()), ("MALLOC_PERTURB_", "165".into())]),
+    let taskset_ok = std::process::Command::new("taskset").args(["-c", "0", "true"]).status().map(|s| s.success()).unwrap_or(false);
+    let configs: Vec<(&str, Vec<&str>, Vec<(&str, String)>)> = vec![
+        ("child plain", vec![], vec![]),
+        ("child no-ASLR + padded env", if setarch_ok { vec!["setarch", "-R"] } else { vec![] }, vec![("VERIF_PAD", "x".repeat(70000)), ("TZ", "Pacific/Kiritimati".into()), ("LANG", "tr_TR.UTF-8".into()), ("RUST_BACKTRACE", "1".into())]),
+        ("child padded env 2", vec![], vec![("VERIF_PAD", "y".repeat(1234)), ("VERIF_PAD2", "z".repeat(33333)), ("TZ", "UTC".into()), ("MALLOC_PERTURB_", "165".into())]),
+        // different numbers of CPUs available to the process (available_parallelism sizes sharded maps)
+        ("child 1 cpu", if taskset_ok { vec!["taskset", "-c", "0"] } else { vec![] }, vec![]),
+        ("child 2 cpus", if taskset_ok { vec!["taskset", "-c", "0-1"] } else { vec![] }, vec![]),
     ];
     let mut child_errors = Vec::new();
-    for (ci, (name, noaslr, envs)) in configs.iter().enumerate() {
+    for (ci, (name, wrapper, envs)) in configs.iter().enumerate() {
         let out = abs_out.join(format!("child_{ci}.txt"));
-        let mut cmd = if *noaslr && setarch_ok {
-            let mut c = std::process::Command::new("setarch");
-            c.arg("-R").arg(&exe);
+        let mut cmd = if let Some(w) = wrapper.first() {
+            let mut c = std::process::Command::new(w);
+            c.args(&wrapper[1..]).arg(&exe);
             c
         } else {
             std::process::Command::new(&exe)
@@ -221,11 +241,11 @@ fn main() {
         "cases": a.len(),
         "shards": 0,
         "distinct_nontrivial": nontrivial.min(distinct.len()),
-        "rule": "generated sessions (4 biases) with every table printed, sizes, extract and extract-variants of probe terms, plus small test files of the repository; each run twice in-process and in 3 child processes (ASLR off via setarch -R where permitted, padded/different environment, different cwd, TZ, LANG); non-trivial iff the program's output has >= 2 rows; distinct by transcript",
+        "rule": "generated sessions (4 biases) with every table printed, sizes, extract and extract-variants of probe terms, plus small test files of the repository; fixed families (diamond combined rulesets; containers rewritten in place by a union); each run twice in-process and in 5 child processes (ASLR off via setarch -R where permitted, padded/different environment, different cwd, TZ, LANG, 1 and 2 CPUs via taskset); non-trivial iff the program's output has >= 2 rows; distinct by transcript",
         "samples": [a.get(1).map(|s| s.chars().take(1200).collect::<String>())],
         "violations": viols,
         "outcome_hist": hist,
-        "extra_coverage": {"runs_compared": runs.len(), "aslr_disabled_run": setarch_ok, "configs": configs.iter().map(|c| c.0).collect::<Vec<_>>()}
+        "extra_coverage": {"runs_compared": runs.len(), "aslr_disabled_run": setarch_ok, "cpu_affinity_runs": taskset_ok, "configs": configs.iter().map(|c| c.0).collect::<Vec<_>>()}
     });
     std::fs::write(o.out.join("impl_report.json"), serde_json::to_string(&rep).unwrap()).unwrap();
 }
